@@ -147,22 +147,24 @@ def hexToString (s : String) : String :=
 def int64Min : Int := -9223372036854775808
 def int64Max : Int := 9223372036854775807
 
-/-- NewNumericRangeSearcher's bounds from the two int64 end points -/
-def adjustBounds (lo hi : Int) (il ih : Bool) : Int × Int :=
-  let lo := if !il && lo != int64Max then lo + 1 else lo
-  let hi := if !ih && hi != int64Min then hi - 1 else hi
-  (lo, hi)
+/-- NewNumericRangeSearcher's bounds from the two int64 end points (`ulo`/`uhi`: the end was given as an
+infinity = unbounded). As repaired by 656262d: an unbounded end has no end point to exclude, and an exclusive
+end at an extreme value leaves an empty range (proved about the translated code: BlugeProofs.C10.Bounds). -/
+def adjustBounds (lo hi : Int) (ulo uhi : Bool) (il ih : Bool) : Int × Int :=
+  let p : Int × Int := if !il && !ulo then (if lo == int64Max then (lo, int64Min) else (lo + 1, hi)) else (lo, hi)
+  if !ih && !uhi then (if p.2 == int64Min then (int64Max, p.2) else (p.1, p.2 - 1)) else p
 
-def numBound (s : String) (isMin : Bool) : Option Int :=
+/-- end point and whether it is unbounded -/
+def numBound (s : String) (isMin : Bool) : Option (Int × Bool) :=
   match parse64 s with
   | none => none
   | some b =>
-    if isMin && b == 0xfff0000000000000#64 then some int64Min
-    else if !isMin && b == 0x7ff0000000000000#64 then some int64Max
-    else some (Numeric.f2i b).toInt
+    if isMin && b == 0xfff0000000000000#64 then some (int64Min, true)
+    else if !isMin && b == 0x7ff0000000000000#64 then some (int64Max, true)
+    else some ((Numeric.f2i b).toInt, false)
 
-def dateBound (s : String) (isMin : Bool) : Option Int :=
-  if s == "z" then some (if isMin then int64Min else int64Max) else s.toInt?
+def dateBound (s : String) (isMin : Bool) : Option (Int × Bool) :=
+  if s == "z" then some (if isMin then int64Min else int64Max, true) else s.toInt?.map (·, false)
 
 /-- query + outcome of `Searcher()` construction (first error / panic in construction order) -/
 partial def parseQuery : SExp → Option (Query × Outcome)
@@ -190,11 +192,11 @@ partial def parseQuery : SExp → Option (Query × Outcome)
     some (.multi f (.range (if lo == "_" then none else some lo) (if hi == "_" then none else some hi) (il == "1") (ih == "1")), .ok)
   | .list [.atom "nr", .atom f, .atom lo, .atom hi, .atom il, .atom ih] =>
     match numBound lo true, numBound hi false with
-    | some l, some h => let b := adjustBounds l h (il == "1") (ih == "1"); some (.numRange f b.1 b.2, .ok)
+    | some l, some h => let b := adjustBounds l.1 h.1 l.2 h.2 (il == "1") (ih == "1"); some (.numRange f b.1 b.2, .ok)
     | _, _ => none
   | .list [.atom "dr", .atom f, .atom lo, .atom hi, .atom il, .atom ih] =>
     match dateBound lo true, dateBound hi false with
-    | some l, some h => let b := adjustBounds l h (il == "1") (ih == "1"); some (.numRange f b.1 b.2, .ok)
+    | some l, some h => let b := adjustBounds l.1 h.1 l.2 h.2 (il == "1") (ih == "1"); some (.numRange f b.1 b.2, .ok)
     | _, _ => none
   | .list [.atom "gb", .atom f, .atom a, .atom b, .atom c, .atom d] =>
     match parseBits a, parseBits b, parseBits c, parseBits d with
